@@ -7,7 +7,7 @@ address is ≥ 2^24 — the Go index-out-of-range panic in the 2^20-entry segmen
 model's total memory function.  `vh cpu` ties the model to both Go packages (registers, flags, cycles, every write
 address, the highest address seen by the backend, panics).
 -/
-import SnesVerif.Cpu.Total
+import SnesVerif.Cpu.Interrupt
 open Cpu
 namespace C08
 
@@ -22,6 +22,18 @@ completes (no access at an address ≥ 2^24 is ever attempted), and every addres
 theorem step_total (v : Variant) (s : St) :
     ∃ s', step v s = some ((), s') ∧ (WOK s → WOK s') := by
   obtain ⟨a, s', e, _, w⟩ := tot_step v s (by intro h; cases h)
+  exact ⟨s', e, w⟩
+
+/-- **C08** the whole of `Step()` with any value of the interrupt latch (a pending NMI or IRQ is serviced first: pushes,
+vector fetch), from any state: completes, and every write is a 24-bit address -/
+theorem stepFull_total (v : Variant) (latch : Nat) (s : St) :
+    ∃ s', stepFull v latch s = some ((), s') ∧ (WOK s → WOK s') := by
+  obtain ⟨a, s', e, _, w⟩ := tot_stepFull v latch s (by intro h; cases h)
+  exact ⟨s', e, w⟩
+
+/-- `Reset()` (vector fetch at $00FFFC) completes from any state -/
+theorem reset_total (s : St) : ∃ s', reset s = some ((), s') ∧ (WOK s → WOK s') := by
+  obtain ⟨a, s', e, _, w⟩ := tot_reset (p := false) s (by intro h; cases h)
   exact ⟨s', e, w⟩
 
 /-- along every program: any number of steps -/
